@@ -766,7 +766,8 @@ func fnCond(e ast.Expr, fnVar string) (int, string, bool) {
 // ---------- loop-body structure ----------
 
 // frule: a rule about found-flags: kind "nil" (if !flag { iterators = nil }), "error" (if !flag { return
-// error }), "use" (if f1 && f2 ... { call / assign }).  Flags and iterators are named by the dispatch arm
+// error }), "empty" (if !f1 && !f2 ... { return nil }, info "before:error"/"after:error": its place relative
+// to the first "error" rule), "use" (if f1 && f2 ... { call / assign }).  Flags and iterators are named by the dispatch arm
 // (message variable, field number) that sets / fills them, so local names do not matter.
 type armRef struct {
 	scope string
@@ -848,9 +849,10 @@ func (fi *fileInfo) foundRules(fd *ast.FuncDecl) []frule {
 				}
 			}
 		case *ast.BinaryExpr:
-			if x.Op == token.LAND && !neg {
-				l, ok1 := flagsOf(x.X, false)
-				r, ok2 := flagsOf(x.Y, false)
+			if x.Op == token.LAND {
+				// a conjunction of flags (neg = false) or of negated flags (neg = true)
+				l, ok1 := flagsOf(x.X, neg)
+				r, ok2 := flagsOf(x.Y, neg)
 				if ok1 && ok2 {
 					return append(l, r...), true
 				}
@@ -858,6 +860,18 @@ func (fi *fileInfo) foundRules(fd *ast.FuncDecl) []frule {
 		}
 		return nil, false
 	}
+	returnsNil := func(rs *ast.ReturnStmt) bool {
+		if len(rs.Results) == 0 {
+			return false
+		}
+		for _, e := range rs.Results {
+			if id, ok := e.(*ast.Ident); !ok || id.Name != "nil" {
+				return false
+			}
+		}
+		return true
+	}
+	firstErrorPos, emptyPos := token.NoPos, map[int]token.Pos{}
 	vt := varTypes(fd)
 	recv := recvName(fd)
 	ast.Inspect(fd.Body, func(n ast.Node) bool {
@@ -870,7 +884,16 @@ func (fi *fileInfo) foundRules(fd *ast.FuncDecl) []frule {
 			for _, st := range is.Body.List {
 				switch y := st.(type) {
 				case *ast.ReturnStmt:
-					r.kind = "error"
+					if returnsNil(y) {
+						// if !a && !b ... { return nil }: none of the columns present = nothing to do
+						r.kind = "empty"
+						emptyPos[len(rules)] = is.Pos()
+					} else {
+						r.kind = "error"
+						if firstErrorPos == token.NoPos || is.Pos() < firstErrorPos {
+							firstErrorPos = is.Pos()
+						}
+					}
 				case *ast.AssignStmt:
 					if len(y.Lhs) == 1 && len(y.Rhs) == 1 {
 						if v, ok := y.Rhs[0].(*ast.Ident); ok && v.Name == "nil" {
@@ -936,6 +959,14 @@ func (fi *fileInfo) foundRules(fd *ast.FuncDecl) []frule {
 		}
 		return true
 	})
+	// an "empty" rule only has an effect where it precedes the mandatory-column errors
+	for i, pos := range emptyPos {
+		if firstErrorPos == token.NoPos || pos < firstErrorPos {
+			rules[i].info = append(rules[i].info, "before:error")
+		} else {
+			rules[i].info = append(rules[i].info, "after:error")
+		}
+	}
 	less := func(a, b armRef) bool { return a.scope < b.scope || (a.scope == b.scope && a.num < b.num) }
 	for i := range rules {
 		r := &rules[i]
